@@ -85,7 +85,9 @@ import (
 	"verif/harness/stat"
 )
 
-var assumeFixed = os.Getenv("VERIF_C17_ASSUME_FIXED") == "1"
+// The three defects are repaired in the repository (KNOWN_FINDINGS.txt "fixed:"), so nothing is
+// excluded by default; VERIF_C17_ASSUME_FIXED=0 re-enables the exclusions for older trees.
+var assumeFixed = os.Getenv("VERIF_C17_ASSUME_FIXED") != "0"
 
 var st = stat.New("C17",
 	"documents rendered from a generated line list (open/close tag, key=value, '#' comment, blank): nesting 0..6, small shared name pools so that domains repeat (merge) and keys repeat (later wins), keys without '=', empty keys, values containing '=' and '#', space/tab padding at all four positions, LF/CRLF/mixed terminators, optional missing final terminator, top-level keys, case-different names, non-ASCII names, occasional >=64KiB line. Class A: full printable alphabet without & and < (no ]]>, no control characters). Class B: plain alphabet (additionally without > and quotes) plus ONE explicit hostile fragment per hostile line (bare &, bad/valid entities, <, unclosed/unmatched/self-closed tags, ]]>, control characters, U+FFFE, quotes, one-line comment/CDATA/PI) in value, key or comment. Class C: class A plus at least one key/sub-domain name collision (both orders). Malformed: plain class-A document with one edit (dropped/renamed close tag, dropped open tag, truncation ending in a partial tag, inserted junk line of markup-biased random bytes). Pure random byte strings: no-panic only. The model is computed from the line list, not from text. Non-trivial = depth>=2 AND duplicate key AND comment line AND value containing '='. Distinct = distinct document text.",
